@@ -20,7 +20,6 @@ let dispatch cmd args =
   | "R2d", [h] -> Some (r2d_s (rEAL2double (bytes_of_hex h)))
   (* Spec-side queries (property oracle) *)
   | "spec_der_real", [h] -> Some (bool_s (der_real_form (bytes_of_hex h)))
-  | "spec_der_real_weak", [h] -> Some (bool_s (der_real_form_weak (bytes_of_hex h)))
   | "spec_real_value", [h] ->
       Some (match real_value (bytes_of_hex h) with
             | None -> "NONE"
